@@ -22,6 +22,7 @@ def run(F, tier):
     jsonsurf.j1(rep, F, S)
     jsonsurf.j2(rep, F, S)
     jsonsurf.j4(rep, F, S)
+    jsonsurf.j5(rep, F, S)
     jsonsurf.j6(rep, F, tms)
     numdate.strftime_census(rep, F)
     numdate.n1(rep, F)
